@@ -5,7 +5,7 @@ UPDATE_ALL = [func("bt.core.StrategyBase.update", variant=v) for v in ("flat", "
 
 ID = "C06"
 META = {
-    "assumptions": ["A-REAL", "A-COMM", "A-T", "A-IND", "A-DATA-NONE", "A-SOLVER", "A-ENGINE"],
+    "assumptions": ["A-REAL", "A-COMM", "A-T", "A-IND", "A-SOLVER", "A-ENGINE"],
     "explanation": "StrategyBase.rebalance verified against clauses over its ghost call log: a zero target closes the child (or does nothing when the child does not exist), a non-zero "
     "target performs exactly one trade on the named child (created lazily if needed), for the amount target*base - current holding computed from the child's weight and the strategy's "
     "value at the time of the trade (notional analogue and transact-vs-allocate choice for fixed income), with the update flag passed down; SecurityBase.allocate's exact-cost clause; "
